@@ -28,11 +28,13 @@ ASSUMPTIONS = ["grid.middle returns a point strictly inside a gap, and x/2 next 
 THEOREM_NOTES = {
     "C13_fixed_admissible": "for the repaired constructor (ValueError for nb_of_points < 2, commit 'fix: create_from_fixed_nb_of_points ...' on fix-grid)",
     "C13_credit_admissible": "for the repaired constructor (ValueError unless every axis is strictly increasing, commit 'fix: CTMCCredit accepted ...' on fix-grid)",
-    "C13_uniform_linspace": "not a theorem: CTMCUniformGrid/CTMCGridGeometric/ProbabilityStep axes are covered by C13_assembly_admissible "
-                            "(premises checked by the oracle on the implementation's arrays), not by a model of linspace/geomspace",
+    "C13_uniform_admissible": "for the repaired constructor (ValueError when a side would lack -h/+h); linspace modelled as its mathematical sequence, "
+                              "tied with tolerance 1e-12; int() as floor",
+    "C13_geometric": "not a theorem: CTMCGridGeometric / CTMCGridProbabilityStep axes are covered by C13_assembly_admissible "
+                     "(premises checked by the oracle on the implementation's arrays), not by a model of geomspace / the root searches",
     "tail probability": "not proved (numerical root search); monitored: mass(h/2, r)/mass(h/2, inf) within 1e-6 of the target",
 }
-LEVEL_TEXT = ("Proof: 12 Coq theorems (closed under the global context) state that create_from_fixed_nb_of_points and CTMCCredit return, "
+LEVEL_TEXT = ("Proof: 13 Coq theorems (closed under the global context) state that create_from_fixed_nb_of_points, CTMCUniformGrid (linspace as its mathematical sequence) and CTMCCredit return, "
               "for every argument they accept, strictly increasing axes with 0 at the origin index and -h/+h as neighbours and end points "
               "at the reported truncations; that any assembly left++[0]++right with pivot len(left) does; and that refine - modelled as "
               "the np.insert loop, proved equal to the interleaving - keeps every old state at 2^n times its index, inserts exactly one "
@@ -176,8 +178,12 @@ def try_build(f, *a):
         return None, f"ValueError: {e}"
 
 
+UNIFORM_CASES = []
+
+
 # ------------------------------------------------------------------------------------------ correspondence
 def correspond(res):
+    del UNIFORM_CASES[:]
     from rpylib.grid.spatial import CTMCGrid
     from stepmeasure import random_dyadic_axis
     rng = random.Random(res.seed)
@@ -300,8 +306,14 @@ def correspond(res):
     # ---- 4. oracle stream: every constructor on step and real models ------------------------
     _oracle_constructors(res, rng, 1 if not thorough else 6, viol)
 
+    groups.append(("uniform", "Q * Q * Q * option (list Q * nat)",
+                   "fun c => match c with (l, h, r, e) => match uniform_axis l h r, e with "
+                   "| None, None => true "
+                   "| Some (xs, o), Some (ys, o2) => Nat.eqb o o2 && Nat.eqb (length xs) (length ys) && "
+                   "forallb (fun xy => Qle_bool (Qabs (fst xy - snd xy)) ((1 + Qabs (snd xy)) * (1 # 1000000000000))) (combine xs ys) "
+                   "| _, _ => false end end", list(UNIFORM_CASES)))
     # ---- Coq side ---------------------------------------------------------------------------
-    header = "From Coq Require Import ZArith QArith List Bool.\nFrom RV Require Import Base.QB Model.Grid.\nOpen Scope Q_scope."
+    header = "From Coq Require Import ZArith QArith Qabs List Bool.\nFrom RV Require Import Base.QB Model.Grid.\nOpen Scope Q_scope."
     res.case_lemmas += len(groups)
     bad = coq_bad_indices(PROP, "cases", header, groups, timeout=900)
     for gname, ty, chk, cases in groups:
@@ -366,7 +378,20 @@ def _oracle_constructors(res, rng, scale, viol):
             hs.append(rng.choice([0.3, 0.6, 1.2, 2.5]))          # large h relative to the truncation
             for h in hs:
                 args = {"model": spec, "h": h}
-                # uniform
+                # uniform (also a tolerance correspondence case: linspace is modelled as its mathematical sequence)
+                try:
+                    lr = compute_truncation(model, h)
+                except Exception:  # noqa
+                    lr = None
+                if lr is not None and all(abs(v / h - round(v / h)) > 1e-9 for v in lr) and lr[0] < 0 < lr[1]:
+                    try:
+                        gu = CTMCUniformGrid(h=h, model=model)
+                        exp = (gu.axes[0].tolist(), origin_indices(gu)[0]) if len(gu.axes[0]) <= 400 else "skip"
+                    except ValueError:
+                        exp = None
+                    if exp != "skip":
+                        UNIFORM_CASES.append(f"({qlit(lr[0])}, {qlit(h)}, {qlit(lr[1])}, "
+                                             f"{opt(exp, lambda e: '(' + lst([qlit(x) for x in e[0]]) + ', ' + natlit(e[1]) + ')')})")
                 try:
                     g = CTMCUniformGrid(h=h, model=model)
                     res.count(("uniform", fam, h, rep), kind="CTMCUniformGrid")
